@@ -100,6 +100,7 @@ func (d *Devmod) Write(ctx context.Context, deviceModules map[string]DeviceModul
 		module, _, _ := strings.Cut(key, ":")
 		modules = append(modules, module)
 	}
+	simOrder(modules)
 
 	if custom, hasCustom := deviceModules[devmodModuleName]; hasCustom {
 		if err := custom.Transition(true); err != nil {
